@@ -370,7 +370,21 @@ def histH : Handler := fun j => do
                          extractor := extractor, saveFails := (asBool (fieldD r "saveFails" (.bool false))).toOption.getD false,
                          unser := dataUnser }
     let twin := runPlain [] prog
-    if kind == "op" then
+    if kind == "foreign" then
+      -- a recording that was not made by the recorder: saved straight through the cassette API, with or without the
+      -- duration metadata `play()` reads, with or without an operation output
+      let id := s0.nextId
+      let data : Data := match fieldD r "output" Json.null with
+        | .str v => [(Key.outArgs opAlias 1, RVal.sent [Val.atom v] [])]
+        | _ => []
+      let dur := (asBool (fieldD r "duration" (.bool true))).toOption.getD true
+      let recd : Recording := { id := id, data := data,
+                                md := { cls := cfg.cls, excFlag := Option.none, duration := 3, incomplete := false, user := [],
+                                        hasDuration := dur } }
+      let s1 := { s0 with nextId := id + 1, store := recd :: s0.store, log := [.create id, .save id] }
+      out := out ++ [jObj [("foreign", jArr (s1.log.map jEv)), ("idle", jIdle s1)]]
+      s := s1
+    else if kind == "op" then
       let (s1, e) := runOperation aliasOracle cfg s0 prog
       let saved := match s1.log.findSome? (fun ev => match ev with | .save i => some i | _ => Option.none) with
         | some i => (match fetch s1.store i with
